@@ -159,7 +159,7 @@ def gen_meta(rng, feat):
     return CaseMetadata(generation=gen, components=comps, phase=phase)
 
 
-def gen_recorder(rng, feat, label=None, n_cases=None, allow_bad_encoding=True, titles=TITLES):
+def gen_recorder(rng, feat, label=None, n_cases=None, allow_bad_encoding=True, titles=TITLES, random_titles=True):
     """A ScenarioRecorder filled through its public recording methods. Returns (recorder, fed) where `fed` keeps the
     objects that were handed in, per case id, for the faithfulness comparison."""
     op = operation(rng, label)
@@ -188,7 +188,7 @@ def gen_recorder(rng, feat, label=None, n_cases=None, allow_bad_encoding=True, t
             for _ in range(rng.randrange(1, 4)):
                 name = rng.choice(CHECK_NAMES)
                 if rng.random() < 0.35:
-                    title = rng.choice(titles) if rng.random() < 0.8 else gen_text(rng, 8)
+                    title = rng.choice(titles) if rng.random() < 0.8 or not random_titles else gen_text(rng, 8)
                     f = Failure(operation=op.label, title=title, message=rng.choice(["m", "", "x\ny"]))
                     rec.record_check_failure(name=name, case_id=case.id, code_sample="curl -X GET http://127.0.0.1/", failure=f)
                     checks.append((name, title))
